@@ -105,6 +105,14 @@ def oracle(case, out):
     elif op in ("dur_add", "dur_sub", "time_add", "time_sub"):
         if not (0 <= int(o[1]) < NS):
             bad("arithmetic result not normalised")
+        # exactness (C14_add_exact / C14_sub_exact): the result is the sum / difference of the totals, clamped as a whole
+        a = norm(int(t[1]), int(t[2])); b = norm(int(t[3]), int(t[4]))
+        ta, tb = a[0] * NS + a[1], b[0] * NS + b[1]
+        tot = ta + tb if op.endswith("add") else ta - tb
+        tot = max(I32MIN * NS, min(I32MAX * NS + NS - 1, tot))
+        exp = (tot // NS, tot % NS)
+        if (int(o[0]), int(o[1])) != exp:
+            bad(f"arithmetic result is not the exact (clamped) total: expected {exp}")
     elif op in ("mono_add", "mono_sub", "mono_addr"):
         a = norm(int(t[1]), int(t[2])); b = norm(int(t[3]), int(t[4])); d = norm(int(t[5]), int(t[6]))
         x = (int(o[0]), int(o[1])); y = (int(o[2]), int(o[3]))
@@ -151,7 +159,7 @@ LEVEL_TEXT = ("Kernel-checked Lean theorems over ALL nanosecond values < 10^9 an
               "(C14_fraction_roundtrip), the three conversion chains (behavior Duration, message Time, transport/message "
               "time chain), normalisation of new/add/sub for ALL operands (C14_new/add/sub_normalized), exactness (the result is the "
               "sum / difference of the nanosecond totals clamped to the representable range: C14_add_exact, C14_sub_exact; the schoolbook "
-              "carry / borrow away from the rails: C14_add_nosat, C14_sub_nosat) and FULL monotonicity of add / sub / Time-Time in each operand "
+              "carry / borrow away from the rails: C14_add_nosat, C14_sub_nosat; add and sub are mutually inverse away from the rails, to the nanosecond: C14_add_sub_cancel, C14_sub_add_cancel, with the witness that the hypothesis is needed at the rail; the exact clamped total is also an oracle clause on every add / sub case) and FULL monotonicity of add / sub / Time-Time in each operand "
               "for all normalised operands, saturation included (C14_add_monotone, C14_add_monotone_right, C14_sub_monotone, "
               "C14_sub_antitone_right, C14_timeSub_monotone). The pinned operators were not monotone at the i32 rail (defect D50, found by "
               "this check, repaired by a fix: commit; kernel-checked regression witness on the old operators). "
